@@ -3,7 +3,7 @@
    independent client-side reading of the byte stream; [resp_ok h r] is the
    property's list of requirements on the response to a request with header h. *)
 From MC Require Import Model.Base Model.Generated Model.Store Model.Memc Model.Codec Model.Handler
-  Spec.Quiet Spec.Wire Proofs.Decimal Proofs.CodecLemmas Proofs.PC11.
+  Spec.Quiet Spec.Wire Proofs.Decimal Proofs.CodecLemmas Proofs.PC11 Proofs.PGuards Model.RustInt.
 
 (* for every request the decoder can produce and every store state: magic 0x81,
    opcode and opaque echoed, data type 0, status from the protocol's table, body
@@ -59,3 +59,10 @@ Example C11_nonvacuous :
   | _ => False
   end.
 Proof. vm_compute. reflexivity. Qed.
+
+(* the response header is written field by field in the order and widths of the
+   source's write_header_impl (translated on every run) *)
+Theorem C11_response_layout_is_source : src_response_layout_ok = true ->
+  forall h, encode_rheader h = write_layout src_response_layout (rheader_field h).
+Proof. exact response_layout_is_source. Qed.
+Print Assumptions C11_response_layout_is_source.
